@@ -64,6 +64,40 @@ def verify(name, wt, prop):
     return 0 if ok else 1
 
 
+def reverify(name):
+    """Re-confirm a stored change against the current /repo HEAD (after a repository fix)."""
+    dst = os.path.join(ROOT, "seeded", name)
+    scratch = "/tmp/seeded-verify-%s" % name
+    sh("git -C /repo worktree remove --force %s" % scratch)
+    code, out = sh("git -C /repo worktree add -q --detach %s HEAD" % scratch)
+    assert code == 0, out
+    res = {}
+    try:
+        env = dict(os.environ, PYTHONPATH=os.path.join(scratch, "src"))
+        shutil.copy(os.path.join(dst, "demo.py"), os.path.join(scratch, "demo.py"))
+        code, out = sh("%s demo.py" % PY, cwd=scratch, env=env, timeout=300)
+        res["demo_without_change"] = {"exit": code, "tail": out[-300:]}
+        code, out = sh("git apply %s" % os.path.join(dst, "patch.diff"), cwd=scratch)
+        if code != 0:
+            res["patch"] = "does not apply: " + out[-300:]
+        else:
+            code, out = sh("%s -m pytest -q -p no:cacheprovider --timeout=600" % PY, cwd=scratch, env=env, timeout=900)
+            res["tests_with_change"] = {"exit": code, "tail": out.strip().splitlines()[-1] if out.strip() else ""}
+            code, out = sh("%s demo.py" % PY, cwd=scratch, env=env, timeout=300)
+            res["demo_with_change"] = {"exit": code, "tail": out[-300:]}
+    finally:
+        sh("git -C /repo worktree remove --force %s" % scratch)
+    ok = res.get("demo_without_change", {}).get("exit") == 0 and res.get("tests_with_change", {}).get("exit") == 0 and res.get("demo_with_change", {}).get("exit", 0) != 0
+    res["confirmed"] = ok
+    res["repo_commit"] = sh("git -C /repo rev-parse --short HEAD")[1].strip()
+    meta_path = os.path.join(dst, "meta.json")
+    meta = json.load(open(meta_path))
+    meta.setdefault("reverifications", []).append(res)
+    json.dump(meta, open(meta_path, "w"), indent=1)
+    print(name, "CONFIRMED" if ok else "NOT-CONFIRMED", json.dumps({k: (v.get("exit") if isinstance(v, dict) else v) for k, v in res.items()}))
+    return 0 if ok else 1
+
+
 def check(name, props, tier):
     dst = os.path.join(ROOT, "seeded", name)
     meta_path = os.path.join(dst, "meta.json")
@@ -104,7 +138,11 @@ def main():
     c.add_argument("name")
     c.add_argument("--props", default="")
     c.add_argument("--tier", default="quick")
+    r = sub.add_parser("reverify")
+    r.add_argument("name")
     a = ap.parse_args()
+    if a.cmd == "reverify":
+        return reverify(a.name)
     if a.cmd == "verify":
         return verify(a.name, a.worktree, a.property)
     return check(a.name, [p for p in a.props.split(",") if p], a.tier)
